@@ -63,6 +63,7 @@ class ComponentResult:
     functions: list = field(default_factory=list)
     errors: list = field(default_factory=list)
     bound: str = ""
+    backend: str = ""  # static components: which decision procedure discharged the obligations (default: the AST rules)
 
 
 def component(props, name, kind, tier="quick"):
